@@ -1,12 +1,12 @@
 SPECIFICATION Spec
 CONSTANTS
-  MS <- MS_q
-  DS <- DS_q
+  MS <- MS_t
+  DS <- DS_s
   TOLS <- TOLS_std
-  POOL <- POOL_std
+  POOL <- POOL_s
   MAXPK = 3
-  SCALES <- SCALES_unit
-  LABS <- LABS_q
+  SCALES <- SCALES_t
+  LABS <- LABS_st
 INVARIANT HSym
 INVARIANT CountOK
 INVARIANT CauchyBinet
